@@ -723,26 +723,20 @@ class Conv:
                            for k in n.keywords), key=lambda kv: kv[0]))
         kwn = tuple(k for k, _ in kw)
         kwv = [v for _, v in kw]
+        recv_rf = None
+        if recv is not None:
+            d0 = dotted(recv)
+            if not (d0 is not None and d0.split('.')[0] in NUMERIC_MODULES):
+                recv_rf = self.expr(recv)
         if self.on_call is not None:
-            rrf = None
-            if recv is not None:
-                oc, self.on_call = self.on_call, None
-                try:
-                    rrf = self.expr(recv)
-                finally:
-                    self.on_call = oc
-            self.on_call(n, name, recv, args, kw, rrf)
+            self.on_call(n, name, recv, args, kw, recv_rf)
         if name is None or (isinstance(n.func, ast.Name) and n.func.id in self.env):
             # call through an expression / a local bound to a value
             return t.atom('callexpr', tuple([self.expr(n.func)] + args + kwv),
                           extra=kwn or None)
-        recv_rf = None
         if recv is not None:
-            oc, self.on_call = self.on_call, None
-            try:
+            if recv_rf is None:
                 recv_rf = self.expr(recv)
-            finally:
-                self.on_call = oc
             ra = recv_rf.single_atom()
             if ra is not None and t.atoms[ra].head in ('name', 'attr') and \
                     name not in REDUCERS and name not in ERASED_CALLS:
